@@ -197,7 +197,7 @@ pub mod maps {
             }
             let r = kernel::map_update(idx, bytes_of(key.borrow()), bytes_of(value.borrow()));
             if vrt::active() {
-                vrt::log("kern", format!("user insert {} key={:02x?} -> {}", name, bytes_of(key.borrow()), r));
+                vrt::log("kern", format!("user insert {} key={:02x?} value={:02x?} -> {}", name, bytes_of(key.borrow()), bytes_of(value.borrow()), r));
             }
             if r == 0 {
                 Ok(())
